@@ -196,7 +196,9 @@ def rule_branch_order(ctx, p, cfg, rid="R2"):
                 ok3, _ = q.must_follow_on_ok(f, pr.block, [enc.block])
                 r.require(ok3, "pre:encode-on-every-ok", fn=f, detail="after processing, every Ok path encodes the record")
                 lf = _logfile_len_expr(p, f, pr)
-                first = bs["get_writer_before"]
+                # the writer whose length the policy is shown: opened before the branch, or at the head of the pre-processing
+                # branch (when each branch lives in its own helper) - in any case by a get_writer call that dominates process()
+                first = [c for c in f.calls(ro["get_writer"].path) if f.dominates(c.block, pr.block) and c.block != pr.block]
                 e = deep_strip(lf) if lf is not None else ("other",)
                 okl = e[0] == "field" and e[2] == ro["len_field"] and any(
                     x[0] == "call" and x[1] == ro["get_writer"].path and x[3] == c.block for c in first for x in walk(e))
